@@ -1133,38 +1133,45 @@ def all_subsets(variant_of):
     return out
 
 
-def plan_for(layout, tier):
+def plan_for(layout, tier, light=False):
     """[(mode, configs, steps)] for one layout.  quick and thorough enumerate the same structure;
-    thorough adds the C-git / variant writers under every step and the live mode for more members."""
+    thorough adds the C-git / variant writers under every step and more members in the live mode.
+    light (thorough, non-canonical n=4 numberings): all subsets fresh + default singles/full set stale."""
     q = tier == "quick"
     singles_d = [((a, DEFAULT[a]),) for a in ACCELS]
     variants = [((a, v),) for a in ACCELS for v in WRITERS[a] if v != DEFAULT[a]]
     multi_d = [c for c in all_subsets(DEFAULT) if len(c) > 1]
     full_d = tuple((a, DEFAULT[a]) for a in ACCELS)
     full_g = tuple((a, "g") for a in ACCELS)
+    packed = layout in ("pack1", "pack2")
     steps = list(QUICK_STEPS if q else STEPS)
     plan = []
     if layout in MAIN_LAYOUTS:
         # fresh: every subset (dulwich writers), every writer variant alone, everything by C git
-        plan.append(("fresh", [()] + singles_d + variants + multi_d + ([full_g] if layout in ("pack1", "pack2") else []), [None]))
-        # stale: every single accelerator (every writer variant in thorough) and the full sets x every step
+        plan.append(("fresh", [()] + singles_d + variants + multi_d + ([full_g] if packed else []), [None]))
+        # stale: every single accelerator and the full set x every step (+ C-git / variant writers)
         st_cfg = [()] + singles_d + [full_d]
         if q:
             st_cfg += [(("cg", "g"),), (("prefs", "g"),)]
-        else:
-            st_cfg += variants + ([full_g] if layout in ("pack1", "pack2") else [])
+        elif not light:
+            st_cfg += [(("cg", "g"),), (("cg", "d-all"),), (("midx", "g"),), (("bitmap", "g"),), (("prefs", "g"),)]
+            st_cfg += [full_g] if packed else []
         plan.append(("fresh", st_cfg, steps))
         # live: long-lived Repo object
-        lv_cfg = [()] + singles_d + ([] if q else [full_d, (("cg", "g"),), (("midx", "g"),), (("prefs", "g"),)])
-        plan.append(("live", lv_cfg, [None] + (list(QUICK_LIVE_STEPS) if q else steps)))
+        if q:
+            if layout != "mixed":
+                plan.append(("live", [()] + singles_d, [None] + list(QUICK_LIVE_STEPS)))
+        elif not light:
+            lv_cfg = [()] + singles_d + [full_d, (("cg", "g"),), (("midx", "g"),), (("prefs", "g"),)]
+            plan.append(("live", lv_cfg, [None] + list(QUICK_STEPS)))
     else:
         cfgs = [(), (("midx", "d"),), (("bitmap", "d"),)] + ([] if q else [(("midx", "g"),), (("cg", "d"),), full_d])
-        plan.append(("fresh", cfgs, [None] + (["commit", "delref+gc", "repack"] if q else steps)))
+        plan.append(("fresh", cfgs, [None] + (["commit", "delref+gc", "repack"] if q else ["commit", "pack", "repack", "delref+gc", "repack-excl"])))
         plan.append(("live", [(), (("bitmap", "d"),)], [None]))
     return plan
 
 
-def eval_history(acc: Acc, dag, tier, layouts):
+def eval_history(acc: Acc, dag, tier, layouts, light=False):
     h = history(dag)
     work = fresh_dir("c14h")
     refcache = {}
@@ -1172,7 +1179,7 @@ def eval_history(acc: Acc, dag, tier, layouts):
         for layout in layouts:
             if not layout_applicable(h, layout):
                 continue
-            for mode, configs, steps in plan_for(layout, tier):
+            for mode, configs, steps in plan_for(layout, tier, light):
                 _eval_configs(acc, h, layout, configs, steps, mode, work, refcache)
         acc.count("histories")
         acc.count("history_layouts", len([L for L in layouts if layout_applicable(h, L)]))
@@ -1306,7 +1313,7 @@ def _rejection(g):
 
 DAMAGE_FAMILIES = {
     "cg": {"parents", "can_ff", "merge_base", "walk", "find_shallow", "get_depth", "graph_walker", "mof", "reach_commits"},
-    "midx": {"getitem", "contains", "get_raw", "iter", "mof", "parents"},
+    "midx": {"getitem", "contains", "get_raw", "iter"},
     "bitmap": {"reach_commits", "reach_objects", "mof"},
 }
 DAMAGE_TIMEOUT = 8  # seconds of CPU time; the restricted battery needs ~0.05 s
@@ -1466,8 +1473,8 @@ def work(task):
     os.dup2(devnull, 2)  # dulwich logs "Ignoring bitmap ..." warnings and ResourceWarnings to stderr
     try:
         if kind == "hist":
-            _, dag, tier, layouts = task
-            eval_history(acc, dag, tier, layouts)
+            _, dag, tier, layouts, light = task
+            eval_history(acc, dag, tier, layouts, light)
         elif kind == "foreign":
             for args in task[1]:
                 case_foreign(acc, *args)
@@ -1501,24 +1508,31 @@ def run(ctx):
     J = ctx.jobs
     bounds = {}
     # ---- histories
-    small = [d for n in (1, 2, 3) for d in E.dags(n, 3)]
     if q:
-        n4 = list(QUICK_N4)
-        bounds["histories"] = "all %d DAGs with n<=3 commits (<=3 parents) + %d named n=4 shapes" % (len(small), len(n4))
+        small = [d for n in (1, 2) for d in E.dags(n, 3)] + list(E.canonical_dags(3, 3))
+        n4 = [(d, False) for d in QUICK_N4]
+        bounds["histories"] = ("all 3 DAGs with n<=2 commits, one DAG per isomorphism class with n=3 (%d), %d named n=4 shapes "
+                               "(chain, diamond, octopus of three roots, merge of two roots + commit); <=3 parents"
+                               % (len(small) - 3, len(n4)))
     else:
-        n4 = list(E.dags(4, 3))
+        small = [d for n in (1, 2, 3) for d in E.dags(n, 3)]
+        canon = set(E.canonical_dags(4, 3))
+        n4 = [(d, d not in canon) for d in E.dags(4, 3)]
         if len(n4) != E.dag_count(4, 3):
             raise HarnessError("enumerator count mismatch")
-        bounds["histories"] = "all %d DAGs with n<=3 and all %d DAGs with n=4 commits (<=3 parents)" % (len(small), len(n4))
+        bounds["histories"] = ("all %d labelled DAGs with n<=3 and all %d labelled DAGs with n=4 commits (<=3 parents); the %d n=4 "
+                               "numberings that are not the canonical representative of their isomorphism class get the light plan "
+                               "(all subsets fresh; default singles + full set under every step; no live mode)"
+                               % (len(small), len(n4), len([1 for _, l in n4 if l])))
     tasks = []
-    for d in small + n4:
+    for d, light in [(d, False) for d in small] + n4:
         if len(d) >= 3:
-            # one task per layout group so that the big histories spread over the workers
+            # one task per layout so that the big histories spread over the workers
             for L in MAIN_LAYOUTS:
-                tasks.append(("hist", d, tier, (L,)))
-            tasks.append(("hist", d, tier, EXTRA_LAYOUTS))
+                tasks.append(("hist", d, tier, (L,), light))
+            tasks.append(("hist", d, tier, EXTRA_LAYOUTS, light))
         else:
-            tasks.append(("hist", d, tier, MAIN_LAYOUTS + EXTRA_LAYOUTS))
+            tasks.append(("hist", d, tier, MAIN_LAYOUTS + EXTRA_LAYOUTS, light))
     bounds["layouts"] = list(MAIN_LAYOUTS + EXTRA_LAYOUTS)
     bounds["accelerator subsets"] = ("fresh: all 15 non-empty subsets of {cg, midx, bitmap, packed-refs} by dulwich's writers + every "
                                      "writer variant alone %r + all four by C git; stale: singles + full sets x %d steps; live: singles%s"
@@ -1535,7 +1549,7 @@ def run(ctx):
     dcount = {}
     targets = [(3, "cg", "d"), (3, "midx", "d"), (3, "bitmap", "d")]
     if not q:
-        targets += [(2, "cg", "g"), (2, "midx", "g"), (2, "bitmap", "g"), (2, "cg", "d"), (2, "midx", "d")]
+        targets += [(2, "cg", "g"), (2, "midx", "g"), (2, "bitmap", "g")]
     dwork = fresh_dir("c14plan")
     for fx, kind, writer in targets:
         h, p, rel = _damage_target(dwork, fx, kind, writer)
@@ -1556,6 +1570,10 @@ def run(ctx):
     ctx.acc.note("t_after_foreign", round(ctx.elapsed(), 1))
     pmap_acc(work, dtasks, ctx.acc, jobs=ctx.jobs)
     ctx.acc.note("t_after_damage", round(ctx.elapsed(), 1))
+    t = os.times()
+    cpu = t.user + t.system + t.children_user + t.children_system
+    ctx.acc.note("cpu_seconds_total", round(cpu, 1))
+    ctx.acc.note("ideal_wall_on_16_idle_cores_s", round(cpu / 16.0, 1))
 
     classes = ctx.acc.classes
     n_ = ctx.acc.n
